@@ -114,6 +114,19 @@ def judge(case, impl, model):
     if model.get("wfMappings") is False:
         msg = msg or "harness: a generated mapping is not a Python dict (duplicate key) — the step-contract theorems do not cover it"
 
+    # ---- the heap-level model (Sem/AliasC17.lean, copy sites as read off the source under test) run on this case
+    hp = model.get("heap")
+    if hp is not None:
+        if not hp.get("agrees"):
+            msg = msg or (f"heap-level model and value-level model differ: heap {'raised' if hp.get('raised') else _short(hp.get('result'))} "
+                          f"value-level {_short(model.get('full'))}")
+        predicted = (not hp.get("inputIntact")) or bool(hp.get("shared"))
+        observed = bool(impl["mutated"]) or bool(impl["alias"]) or bool(impl.get("full_is_input"))
+        if predicted and not observed:
+            msg = msg or (f"heap-level model with the copy sites of the source predicts that convert_dict touches / shares the "
+                          f"caller's objects (intact={hp.get('inputIntact')}, shared={hp.get('shared')}) but snapshots and "
+                          f"alias probe show nothing")
+
     # ---- start versions below 1 (the documentation has versions start at 1; `version` is a PositiveInt field):
     # convert_dict slices the history with a negative index instead of rejecting the document
     if int_version and ver < 1:
